@@ -67,8 +67,8 @@ def __scientific_printer(value: float, error: float, latex=False) -> str:
     if m.isinf(value):
         return "inf {} inf".format(pm)
 
-    # Find order of magnitude
-    order = m.floor(m.log10(abs(value)))
+    # Find order of magnitude (a value of 0 has none of its own, use that of the uncertainty)
+    order = m.floor(m.log10(abs(value if value != 0 else error)))
     if order == 0:
         return __default_printer(value, error, latex)
 
